@@ -219,6 +219,19 @@ func falsify(body []byte, method, lie string) ([]byte, bool) {
 			hdr["consensus_hash"], changed = flipHex(hdr["consensus_hash"]), true
 		case "hheight":
 			hdr["height"], changed = bumpNum(hdr["height"], 1), true
+		case "lastsig":
+			// only the last signature: light verification stops counting once +2/3 is reached
+			sigs, _ := cm["signatures"].([]any)
+			for i := len(sigs) - 1; i >= 0 && !changed; i-- {
+				sg, _ := sigs[i].(map[string]any)
+				if s64, ok := sg["signature"].(string); ok && s64 != "" {
+					if raw, err := base64.StdEncoding.DecodeString(s64); err == nil && len(raw) > 0 {
+						raw[len(raw)-1] ^= 0x01
+						sg["signature"] = base64.StdEncoding.EncodeToString(raw)
+						changed = true
+					}
+				}
+			}
 		case "sig":
 			if sigs, _ := cm["signatures"].([]any); len(sigs) > 0 {
 				for _, x := range sigs {
@@ -278,4 +291,4 @@ func falsify(body []byte, method, lie string) ([]byte, bool) {
 	return nb, true
 }
 
-var lieKinds = []string{"apphash", "valhash", "nextvalhash", "lastresults", "conshash", "hheight", "sig", "power", "dropval", "params", "priority", "evparams"}
+var lieKinds = []string{"apphash", "valhash", "nextvalhash", "lastresults", "conshash", "hheight", "sig", "lastsig", "power", "dropval", "params", "priority", "evparams"}
